@@ -33,6 +33,11 @@ func propC02(c *Ctx) {
 			runParseCase(c, fmt.Sprintf(tpl, q), "quoted-identifier-like-keyword")
 		}
 	}
+	for _, u := range []string{"?", "#", "@", "$", "~", "&", "|", ";", ":", "{", "😀"} {
+		for _, tpl := range []string{"%s", "a %s + 1", "2 %s + 3", "f(%s a, 3)", "x[%s 0]", "1 + %s", "%s 1.5", "a %s 'x'", "%s TRUE", "1 %s 2 %s 3"} {
+			runParseCase(c, strings.ReplaceAll(tpl, "%s", u), "foreign-symbol")
+		}
+	}
 	// (2) generated sentences + (3) token-level mutants of any size
 	g := newExGen(c)
 	n := 1500
@@ -41,7 +46,9 @@ func propC02(c *Ctx) {
 	}
 	vocab := []string{"1", "a", "(", ")", "[", "]", ",", "+", "-", "*", "/", "%", "^", "=", "<>", "!=", ">", "<", ">=", "<=", "<<", ">>", "AND", "OR", "XOR", "NOT", "IS", "IN", "NULL", "LIKE", "f", "'s'", "TRUE",
 		// quoted identifiers are variables whatever they spell; string constants likewise stay constants
-		"\"and\"", "\"null\"", "\"+\"", "\"true\"", "\"is\"", "\"not\"", "\",\"", "'and'", "'+'", "\"(\""}
+		"\"and\"", "\"null\"", "\"+\"", "\"true\"", "\"is\"", "\"not\"", "\",\"", "'and'", "'+'", "\"(\"",
+		// characters that are not symbols of the language, before and after constants of every kind
+		"?", "#", "@", "$", "~", "`", "\\", "&", "|", ";", ":", "{", "}", "😀", "§"}
 	for i := 0; i < n; i++ {
 		e := g.gen(1 + c.Rng.Intn(5))
 		mode := c.Rng.Intn(3)
